@@ -84,6 +84,8 @@ impl InsertionContext {
 
     /// Restores valid context state.
     pub fn restore(&mut self) {
+        // NOTE a tour without jobs must not be seen by the state handlers: per-solution values would count it
+        self.solution.remove_empty_routes();
         self.problem.goal.accept_solution_state(&mut self.solution);
         self.solution.remove_empty_routes();
     }
